@@ -165,12 +165,14 @@ def run_real(files: T.Dict[str, str], workdir: str, sub: bool) -> Obs:
     try:
         if sub:
             try:
-                r = M.run_sub(args, cwd=workdir, timeout=600)
+                r = M.run_sub(args, cwd=workdir, timeout=600, cpu_limit=60, max_output=32 << 20)
             except subprocess.TimeoutExpired:
+                return Obs(-9, '', '', hang=True)
+            if r.rc < 0:      # killed by the kernel: CPU or output limit (no generated program needs either)
                 return Obs(-9, '', '', hang=True)
         else:
             old = signal.signal(signal.SIGPROF, _on_sigprof)
-            signal.setitimer(signal.ITIMER_PROF, CPU_BUDGET_S)
+            signal.setitimer(signal.ITIMER_PROF, CPU_BUDGET_S, 0.5)   # re-fires: one swallowed exception must not disable the budget
             try:
                 r = M.run_inproc(args, cwd=workdir)
             except _CpuBudget:
@@ -279,6 +281,11 @@ def compare(o: R.Outcome, ob: Obs) -> T.Optional[T.Tuple[str, str]]:
         return None
     # error expected
     why = o.reason
+    if ob.unhandled and ob.rc != 0 and not ob.hang:
+        # The property demands that `meson setup` FAILS in these cases; it does (non-zero exit). That the failure is a
+        # Python traceback rather than a located ERROR (observed: `break`/`continue` outside a loop) is not something
+        # C01 states, so it is recorded (class 'error-expected/unclean-failure') and not judged.
+        return None
     if ob.unhandled:
         return (f'error/unhandled:{why}', f'reference: rejected ({why}); real: not a MesonException - {ob.escaped or "Unhandled python exception / traceback"} (rc={ob.rc})')
     if ob.rc == 0:
@@ -323,10 +330,7 @@ def nontrivial(case: dict) -> bool:
 
 # documented behaviours the real tool is confirmed to break (reported findings): programs that meet one are
 # excluded from the random campaign (counted); each is re-checked by one deterministic probe in PROBES
-KNOWN_FLAGS = {
-    'int-in-dict': 'integer needle `in` dictionary (finding operator/int-in-dict-rejected)',
-    'bool-to_string-empty': 'bool.to_string with an empty string argument (finding method/bool-to_string-empty-arg)',
-}
+KNOWN_FLAGS: T.Dict[str, str] = {}   # (both former classes, int-in-dict and bool-to_string-empty, are fixed in /repo and generated again)
 
 
 _CONFIRMED: T.Dict[str, int] = {}     # per process: signature -> number of subprocess confirmations so far
@@ -372,6 +376,8 @@ def judge(case: dict, workdir: str, ev: Evidence, record: bool = True, always_co
         # no time-based verdicts: a run that exhausts the CPU budget is counted as inconclusive, never as a violation
         ev.event('inconclusive:real-run-exceeded-cpu-budget')
         return None
+    if record and ref.kind == 'error' and ob.unhandled and ob.rc != 0:
+        ev.event('error-expected/unclean-failure')
     d = compare(ref, ob)
     if d is None:
         return None
@@ -426,12 +432,6 @@ PROBES: T.List[dict] = [
      'files': _P(['assign', 'a', ['meth', ['bool', True], 'to_string', [[None, _s('')], [None, _s('no')]]]],
                  ['assign', 'b', ['meth', ['bool', False], 'to_string', [[None, _s('yes')], [None, _s('')]]]],
                  _msg(['bin', '+', ['bin', '+', _s('<'), ['id', 'a']], _s('>')]))},
-    {'sig': 'error/unhandled:break outside of a loop', 'kind': 'judge',
-     'what': 'Syntax.md grammar: break/continue only inside foreach; real: BreakRequest (a BaseException) escapes as a Python traceback instead of a located ERROR',
-     'files': _P(_msg(_s('before')), ['break'])},
-    {'sig': 'error/unhandled:continue outside of a loop', 'kind': 'judge',
-     'what': 'Syntax.md grammar: break/continue only inside foreach; real: ContinueRequest escapes as a Python traceback instead of a located ERROR',
-     'files': _P(_msg(_s('before')), ['if', [[['bool', True], [['continue']]]], None])},
     {'sig': 'escape/unknown-unicode-name-crash', 'kind': 'nocrash',
      'what': "Syntax.md: 'Unrecognized escape sequences are left in the string unchanged'; real: '\\N{no such name}' -> Unhandled python exception (UnicodeDecodeError) while parsing",
      'files': _P(['assign', 'x', ['str', 'a\\N{NO SUCH CHARACTER NAME}b', 's']], _msg(['id', 'x']))},
